@@ -276,10 +276,12 @@ type GoldenEntry struct {
 
 type GoldenCorpus struct {
 	// DirNames: "<type>|asis" / "<type>|lower" -> directory name chosen by the pinned release
-	DirNames     map[string]string `json:"dir_names"`
-	PinnedCommit string            `json:"pinned_commit"`
-	Note         string            `json:"note"`
-	Entries      []GoldenEntry     `json:"entries"`
+	DirNames map[string]string `json:"dir_names"`
+	// Descriptors: type -> field path -> "type|constraints" computed by the pinned release
+	Descriptors  map[string]map[string]string `json:"descriptors"`
+	PinnedCommit string                       `json:"pinned_commit"`
+	Note         string                       `json:"note"`
+	Entries      []GoldenEntry                `json:"entries"`
 }
 
 func goldenAlphabet() []Op {
@@ -363,6 +365,7 @@ func runGoldenGen(c *Ctx) {
 		}
 	}
 	corpus.DirNames = dirNames()
+	corpus.Descriptors = descriptorTable()
 	data, _ := json.Marshal(corpus)
 	if err := os.WriteFile(out, data, 0644); err != nil {
 		panic(err)
@@ -438,6 +441,33 @@ func runC18(c *Ctx) {
 	corpus, err := loadCorpus()
 	if err != nil {
 		panic("C18: cannot load the golden corpus: " + err.Error())
+	}
+	// field descriptors (the "fields" section of schema.json and the structure guard are made of
+	// them): same paths, types and constraints as the pinned release for every shape
+	if c.Shard == 0 {
+		now := descriptorTable()
+		for typ, want := range corpus.Descriptors {
+			if typ == "Hk" || typ == "Wide" {
+				continue // harness types that changed since the corpus was written are not part of the format
+			}
+			got := now[typ]
+			paths := map[string]bool{}
+			for p := range want {
+				paths[p] = true
+			}
+			for p := range got {
+				paths[p] = true
+			}
+			for p := range paths {
+				c.Count("evaluations", 1)
+				c.Distinct("states", "descriptor|"+typ+"|"+p)
+				c.Distinct("distinct_nontrivial", "descriptor|"+typ+"|"+p)
+				if got[p] != want[p] {
+					depth := strings.Count(p, ".") + 1
+					c.Violation(Violation{Sig: fmt.Sprintf("C18|descriptor-changed|%s|depth=%d", typ, depth), What: fmt.Sprintf("type %s, field path %q: the pinned release describes it as %q, the current code as %q (the fields section of schema.json changes: collections of the other version are refused or mis-read)", typ, p, want[p], got[p])})
+				}
+			}
+		}
 	}
 	// directory names: the pinned release and the current code must agree for every naming type
 	if c.Shard == 0 {
